@@ -28,6 +28,8 @@ type Script struct {
 	decls   map[string]bool
 	zarrs   map[string][2]string // zero-filled array constants: name -> (element sort, zero term)
 	noDef   int                  // > 0: def() leaves terms un-named (canonical texts)
+	seen    map[string]bool      // assertions already emitted (identical instances are dropped)
+	defs    map[string]string    // body -> name of an existing definition (hash-consing)
 }
 
 func newScript() *Script {
@@ -60,7 +62,15 @@ func (s *Script) def(p string, t T) T {
 	if !strings.HasPrefix(t.S, "(") || len(t.S) < 24 || s.noDef > 0 {
 		return t
 	}
+	if s.defs == nil {
+		s.defs = map[string]string{}
+	}
+	key := t.So + "|" + t.S
+	if n, ok := s.defs[key]; ok {
+		return T{n, t.So}
+	}
 	n := s.fresh(p)
+	s.defs[key] = n
 	s.lines = append(s.lines, fmt.Sprintf("(define-fun %s () %s %s)", n, t.So, t.S))
 	return T{n, t.So}
 }
@@ -84,7 +94,18 @@ func (s *Script) assume(f string) {
 	if f == "true" || f == "" {
 		return
 	}
-	s.lines = append(s.lines, "(assert "+f+")")
+	s.emit("(assert " + f + ")")
+}
+
+func (s *Script) emit(line string) {
+	if s.seen == nil {
+		s.seen = map[string]bool{}
+	}
+	if s.seen[line] {
+		return
+	}
+	s.seen[line] = true
+	s.lines = append(s.lines, line)
 }
 
 func (s *Script) assumeUnder(pc, f string) {
@@ -95,7 +116,7 @@ func (s *Script) assumeUnder(pc, f string) {
 		s.assume(f)
 		return
 	}
-	s.lines = append(s.lines, "(assert (=> "+pc+" "+f+"))")
+	s.emit("(assert (=> " + pc + " " + f + "))")
 }
 
 func (s *Script) lit(v string) string {
